@@ -111,6 +111,18 @@ def execute(args):
         if opt.get("tmp_on_disk"):
             tmpdir = os.path.join(opt["tmp_on_disk"], "t%d_%d" % (os.getpid(), execute.counter))
             os.makedirs(tmpdir)
+        tmp_env = tmpdir
+        if opt.get("tmp_form") == "nonexistent":
+            tmp_env = os.path.join(work, "no", "such", "dir")
+        elif opt.get("tmp_form") == "file":
+            tmp_env = os.path.join(work, "tmpfile")
+            open(tmp_env, "w").close()
+        elif opt.get("tmp_form") == "relative":
+            tmp_env = os.path.relpath(tmpdir, os.path.join(work, "cwd"))
+        elif opt.get("tmp_form") == "trailing-slash":
+            tmp_env = tmpdir + "/"
+        elif opt.get("tmp_form") == "readonly":
+            os.chmod(tmpdir, 0o555)
         roots = [proj, tmpdir, os.path.join(work, "cwd"), os.path.join(work, "outside")]
         x = Exec()
         x.plan = plan
@@ -119,7 +131,7 @@ def execute(args):
         if opt.get("meta"):
             x.meta_before = {r: cli.snapshot(r) for r in (proj, tmpdir, os.path.join(work, "cwd"), os.path.join(work, "outside"))}
         r = cli.run_breadlog(os.path.join(proj, "Breadlog.yaml"), check=sc.check, cwd=os.path.join(work, "cwd"),
-                             tmpdir=tmpdir, timeout=opt.get("timeout", 30),
+                             tmpdir=tmp_env, timeout=opt.get("timeout", 30),
                              shim={"log": os.path.join(work, "fsx.log"), "roots": roots, "plan": plan_str(plan), "sticky_prefix": tmpdir})
         x.exit, x.signal, x.timed_out = r.exit, r.signal, r.timed_out
         x.stdout, x.stderr = r.stdout, r.stderr
@@ -169,6 +181,11 @@ def execute(args):
             shutil.rmtree(tmpdir, ignore_errors=True)
         return x
     finally:
+        if opt.get("tmp_form") == "readonly":
+            try:
+                os.chmod(os.path.join(work, "tmp"), 0o755)
+            except OSError:
+                pass
         shutil.rmtree(work, ignore_errors=True)
 
 
